@@ -52,6 +52,7 @@ pub fn run(sc: &Value) -> Vec<Value> {
         let mut ops = 0u64;
         let mut faulted = json!(null);
         let mut first_err = String::new();
+        let mut drop_panicked = false;
         let r = catch_unwind(AssertUnwindSafe(|| {
             if via == "seek" {
                 let rd = Chunked::new(&bytes, &plan);
@@ -126,7 +127,9 @@ pub fn run(sc: &Value) -> Vec<Value> {
                             break;
                         }
                         Ok(None) => break,
-                        Ok(Some(mut f)) => {
+                        Ok(Some(f)) => {
+                            // (released under its own guard below: a destructor that panics while another panic unwinds aborts the process)
+                            let mut f = std::mem::ManuallyDrop::new(f);
                             let lm = f.last_modified();
                             let nm = format!("{}|{}|{}|{}|{}|{}|{}|{}", hid(f.name().as_bytes()), hid(f.name_raw()), f.size(), f.compressed_size(), f.crc32(),
                                              crate::wexec::code_of(f.compression()), lm.datepart(), lm.timepart());
@@ -139,7 +142,7 @@ pub fn run(sc: &Value) -> Vec<Value> {
                                 }
                                 outcome.push(json!({"name": nm, "half": hex32(crc32(&b))}));
                             } else {
-                                match read_all(&mut f, bufsize) {
+                                match read_all(&mut *f, bufsize) {
                                     Ok((n, c)) => outcome.push(json!({"name": nm, "len": n, "crc": hex32(c)})),
                                     Err(e) => {
                                         anyerr = true;
@@ -153,6 +156,9 @@ pub fn run(sc: &Value) -> Vec<Value> {
                                         }
                                     }
                                 }
+                            }
+                            if catch_unwind(AssertUnwindSafe(|| unsafe { std::mem::ManuallyDrop::drop(&mut f) })).is_err() {
+                                drop_panicked = true;
                             }
                         }
                     }
@@ -173,7 +179,10 @@ pub fn run(sc: &Value) -> Vec<Value> {
         m.insert("faulted".into(), faulted);
         match r {
             Ok(()) => {
-                m.insert("panic".into(), json!(false));
+                m.insert("panic".into(), json!(drop_panicked));
+                if drop_panicked {
+                    m.insert("msg".into(), json!("releasing a streamed entry panicked"));
+                }
             }
             Err(p) => {
                 m.insert("panic".into(), json!(true));
